@@ -65,6 +65,9 @@ def build_graph(mod, g, order=None):
         objs[i] = getattr(mod, nd["cls"])(**kwargs)
         if str(i) in (g.get("loaded") or {}):
             objs[i] = reload_config(objs[i], g["loaded"][str(i)])
+        if str(i) in (g.get("constset") or {}):
+            cs = g["constset"][str(i)]
+            objs[i] = hold_constants(objs[i], cs["via"], {k: real_val(mod, v, objs) for k, v in cs["vals"]})
     for i, name, v in later:
         setattr(objs[i], name, real_val(mod, v, objs))
     for m in g.get("inplace") or []:
@@ -118,6 +121,26 @@ def reload_config(o, via):
         return serialization.load(d)
     finally:
         shutil.rmtree(d, ignore_errors=True)
+
+
+def hold_constants(o, via, vals):
+    """the same configuration holding *other* values for its `Constant` parameters than its class declares: what loading a file
+    written under an earlier version of the class returns (`via="state"`: the saved value is restored as it was written) and what
+    `copyconfig(cfg, name=v)` builds"""
+    from experimaestro.core import serialization
+    from experimaestro.core.context import SerializationContext
+    if via == "copyconfig":
+        from experimaestro import copyconfig
+        try:
+            return copyconfig(o, **vals)
+        except KeyError:
+            pass
+    sd = serialization.state_dict(SerializationContext(), o)
+    root = sd["data"]["value"]
+    for d in sd["objects"]:
+        if d["id"] == root:
+            d["fields"].update(vals)
+    return serialization.from_state_dict(sd)
 
 
 def hx(s: str) -> str:
